@@ -412,3 +412,129 @@ def start_op(W, op, amount=None, user=None):
 def fdiv(I, st, x, y):
     """spec-side floor division (adds the division lemma to st)."""
     return I.idiv(st, x, y)[0]
+
+
+# ---------------------------------------------------------------------- replay scenarios (model -> real run)
+ADDR = dict(hub='hub_contract', owner='owner_addr', bsei='bsei_token', stsei='stsei_token',
+            dispatcher='dispatcher_contract', registry='registry_contract', rewards='reward_contract',
+            airdrop='airdrop_registry', updater='index_updater', user='user_a')
+
+
+def mget(m, k, d=0):
+    v = m.get(k, d)
+    if isinstance(v, str):
+        if v in ('True', 'False'):
+            return v == 'True'
+        try:
+            return int(v)
+        except ValueError:
+            return d
+    return v
+
+
+def hub_storage(m, histories=(), waits=(), paused=False):
+    st = {
+        'config': {'creator': ADDR['owner'], 'update_reward_index_addr': ADDR['updater'],
+                   'reward_dispatcher_contract': ADDR['dispatcher'], 'validators_registry_contract': ADDR['registry'],
+                   'bsei_token_contract': ADDR['bsei'], 'stsei_token_contract': ADDR['stsei'],
+                   'airdrop_registry_contract': ADDR['airdrop'], 'rewards_contract': ADDR['rewards']},
+        'state': {'bsei_exchange_rate': str(mget(m, 'rate_bsei_stored', E)), 'stsei_exchange_rate': str(mget(m, 'rate_stsei_stored', E)),
+                  'total_bond_bsei_amount': str(mget(m, 'B_bsei')), 'total_bond_stsei_amount': str(mget(m, 'B_stsei')),
+                  'last_index_modification': mget(m, 'last_index_modification'),
+                  'prev_hub_balance': str(mget(m, 'prev_hub_balance')),
+                  'last_unbonded_time': mget(m, 'last_unbonded_time'), 'last_processed_batch': mget(m, 'last_processed_batch')},
+        'params': {'epoch_period': mget(m, 'epoch_period'), 'underlying_coin_denom': 'usei',
+                   'unbonding_period': mget(m, 'unbonding_period'), 'peg_recovery_fee': str(mget(m, 'peg_recovery_fee')),
+                   'er_threshold': str(mget(m, 'er_threshold')), 'reward_denom': 'uusd', 'paused': paused},
+        'current_batch': {'id': mget(m, 'current_batch_id', 1), 'requested_bsei_with_fee': str(mget(m, 'Q_bsei')),
+                          'requested_stsei': str(mget(m, 'Q_stsei'))},
+        'new_owner': ADDR['owner'],
+        'histories': list(histories), 'waits': list(waits),
+    }
+    return st
+
+
+def hub_querier(m):
+    dels = []
+    i = 0
+    while 'deleg_%d' % i in m:
+        dels.append({'validator': 'dval%d' % i, 'amount': str(mget(m, 'deleg_%d' % i)), 'denom': 'usei'})
+        i += 1
+    vals = []
+    i = 0
+    while 'regval_%d' % i in m:
+        vals.append({'address': 'rval%d' % i, 'total_delegated': str(mget(m, 'regval_%d' % i))})
+        i += 1
+    return {'balances': [{'address': ADDR['hub'], 'denom': 'usei', 'amount': str(mget(m, 'hub_balance'))}],
+            'delegations': dels, 'validators': vals,
+            'supplies': [{'token': ADDR['bsei'], 'supply': str(mget(m, 'S_bsei'))},
+                         {'token': ADDR['stsei'], 'supply': str(mget(m, 'S_stsei'))}],
+            'cw20_balances': []}
+
+
+def op_message(op, m):
+    amt = str(mget(m, 'amount'))
+    import base64
+    import json as _j
+
+    def recv(hook):
+        return {'receive': {'sender': ADDR['user'], 'amount': amt,
+                            'msg': base64.b64encode(_j.dumps({hook: {}}).encode()).decode()}}
+    funds = [{'denom': 'usei', 'amount': amt}]
+    table = {
+        'bond': ({'bond': {}}, ADDR['user'], funds),
+        'bond_stsei': ({'bond_for_st_sei': {}}, ADDR['user'], funds),
+        'bond_rewards': ({'bond_rewards': {}}, ADDR['dispatcher'], funds),
+        'unbond_bsei': (recv('unbond'), ADDR['bsei'], []),
+        'unbond_stsei': (recv('unbond'), ADDR['stsei'], []),
+        'convert_bsei': (recv('convert'), ADDR['bsei'], []),
+        'convert_stsei': (recv('convert'), ADDR['stsei'], []),
+        'check_slashing': ({'check_slashing': {}}, ADDR['user'], []),
+        'withdraw': ({'withdraw_unbonded': {}}, ADDR['user'], []),
+    }
+    return table[op]
+
+
+def hub_scenario(m, op, histories=(), waits=(), paused=False):
+    msg, sender, funds = op_message(op, m)
+    return {'kind': 'hub', 'entry': 'execute', 'storage': hub_storage(m, histories, waits, paused), 'querier': hub_querier(m),
+            'env': {'time': mget(m, 'now'), 'contract': ADDR['hub']}, 'info': {'sender': sender, 'funds': funds},
+            'msg': msg, 'dump_addrs': [ADDR['user'], 'user_b']}
+
+
+def real_effects(out):
+    """decode the real run's response into mints/burns/staking totals (exact integers)."""
+    r = out.get('result', {})
+    e = {'ok': 'ok' in r, 'mint_b': 0, 'mint_s': 0, 'burn_b': 0, 'burn_s': 0, 'delegated': 0, 'undelegated': 0,
+         'delegate': [], 'undelegate': [], 'bank': [], 'wasm': [], 'mint_to': []}
+    if not e['ok']:
+        e['err'] = r.get('err') or r.get('panic') or str(r)
+        return e
+    for sm in r['ok'].get('messages', []):
+        msg = sm['msg']
+        if 'wasm' in msg and 'execute' in msg['wasm']:
+            x = msg['wasm']['execute']
+            inner = x['msg']
+            tok = 'b' if x['contract_addr'] == ADDR['bsei'] else ('s' if x['contract_addr'] == ADDR['stsei'] else None)
+            if tok and isinstance(inner, dict) and 'mint' in inner:
+                e['mint_' + tok] += int(inner['mint']['amount'])
+                e['mint_to'].append((tok, inner['mint']['recipient'], int(inner['mint']['amount'])))
+            elif tok and isinstance(inner, dict) and 'burn' in inner:
+                e['burn_' + tok] += int(inner['burn']['amount'])
+            else:
+                e['wasm'].append(x)
+        elif 'staking' in msg:
+            s = msg['staking']
+            if 'delegate' in s:
+                e['delegated'] += int(s['delegate']['amount']['amount'])
+                e['delegate'].append(s['delegate'])
+            elif 'undelegate' in s:
+                e['undelegated'] += int(s['undelegate']['amount']['amount'])
+                e['undelegate'].append(s['undelegate'])
+            else:
+                e.setdefault('redelegate', []).append(s.get('redelegate'))
+        elif 'bank' in msg:
+            e['bank'].append(msg['bank'])
+        else:
+            e.setdefault('other', []).append(msg)
+    return e
